@@ -802,6 +802,7 @@ def run(ctx):
         return finish(ctx)
     hash_selftest(ctx)
     vfy.big_piece_cases(ctx)
+    vfy.platform_limit_cases(ctx)
     r = ctx.rng
     cases = corpus() + [gen_case(r, i) for i in range(ctx.n(170, 9000))]
     tmp = tempfile.mkdtemp(prefix="c02-")
